@@ -38,6 +38,7 @@ static std::string run_case(const Family& f, int path, const Bytes& data, bool i
   std::string outcome;
   uint8_t* blk = (uint8_t*)malloc(data.size()); if (!data.empty()) memcpy(blk, data.data(), data.size());
   {
+    Sched sc(0, 4321);   // some readers construct objects that draw a coin (REQ compactors)
     ObjP o;
     try {
       if (path == BYTES) o = f.from_bytes(blk, data.size());
@@ -54,7 +55,7 @@ static std::string run_case(const Family& f, int path, const Bytes& data, bool i
         // usability script: every step may throw, none may misbehave
         try { o->obs(); } catch (const std::exception&) {}
         try { o->ser(0); } catch (const std::exception&) {}
-        try { Sched sc(0, 99); if (o->ncont()) o->cont(0); } catch (const std::exception&) {}
+        try { if (o->ncont()) o->cont(0); } catch (const std::exception&) {}
         try { o->obs(); } catch (const std::exception&) {}
         outcome = "accepted-usable";
       }
@@ -86,7 +87,7 @@ int main(int argc, char** argv) {
   Config cfg = parse_args(argc, argv);
   forbid_unowned_draws();
   register_all_families();
-  case_timeout_s() = 10;
+  case_timeout_s() = 3;
   std::vector<Task> tasks;
   { Task t; t.name = "meta"; t.fn = [](Report& rep) {
       rep.assumptions.push_back("images come from the enumerated corpora (one per distinct (size, first 8 bytes) shape, at most 4 KiB); replacement set {00,01,7f,80,ff, 8 single-bit flips}; preamble = first 8..40 bytes per family");
@@ -98,6 +99,7 @@ int main(int argc, char** argv) {
     const Family f = registry()[fi];
     Task t; t.name = f.name; t.fn = [f, &cfg, repl](Report& rep) {
       if (!cfg.replay_scenario.empty() && cfg.replay_scenario != f.name) return;
+      set_resumable(rep);
       ledger().request_cap = (size_t)256 << 20;
       std::vector<Img> imgs; collect(f, cfg.quick(), imgs, cfg.quick() ? 24 : 150);
       uint64_t cases = 0; size_t done = 0;
